@@ -56,7 +56,9 @@ impl ResidencyContainer {
     /// If `product_name` is empty, CASC logs:
     /// "No product provided, continuing without residency container."
     pub fn new(product_name: String, access_mode: AccessMode, storage_path: PathBuf) -> Self {
-        let read_only = access_mode == AccessMode::ReadOnly;
+        // Everything without write access is read-only: `AccessMode::None`
+        // must not be more permissive than `ReadOnly`.
+        let read_only = !access_mode.can_write();
         let db_path = storage_path.join("key_state_v8");
         Self {
             product_name,
